@@ -190,6 +190,27 @@ fn collect_wig<I: Iterator<Item = Result<bigtools::Value, bigtools::BBIReadError
     Ok(v)
 }
 
+/// The same answer consumed another way: `k` items with `next()`, the rest through the iterator's
+/// `fold` (which `for_each`, `count`, `last`, `sum` ... are built on and which a type may override).
+fn collect_folding<T, U, I: Iterator<Item = Result<T, bigtools::BBIReadError>>>(mut it: I, k: usize, conv: impl Fn(T) -> U) -> Result<Vec<U>, String> {
+    let mut v = vec![];
+    for _ in 0..k {
+        match it.next() {
+            None => return Ok(v),
+            Some(x) => v.push(conv(x.map_err(|e| format!("{}", e))?)),
+        }
+    }
+    let mut err = None;
+    it.for_each(|x| match x {
+        Ok(x) => v.push(conv(x)),
+        Err(e) => err = Some(format!("{}", e)),
+    });
+    match err {
+        Some(e) => Err(e),
+        None => Ok(v),
+    }
+}
+
 fn cmp_answer(
     path: &str,
     ch: &WChrom,
@@ -286,6 +307,13 @@ fn c03_ranges(c: &WigCase, bytes: &[u8], out: &mut Outcome) {
                         .map_err(|e| format!("{}", e))
                         .and_then(collect_wig);
                     cmp_answer("plain", ch, s, e, g, &tags, out);
+                    // ... and with the first 0 / 1 / 2 items taken by next() and the rest by for_each
+                    let k = ((s + 2 * e) % 3) as usize;
+                    let g = plain.get_interval(&ch.name, s, e).map_err(|e| format!("{}", e)).and_then(|it| collect_folding(it, k, |x: bigtools::Value| (x.start, x.end, x.value.to_bits())));
+                    cmp_answer("plain, next() then for_each", ch, s, e, g, &tags, out);
+                    let g = open().and_then(|r| r.get_interval_move(&ch.name, s, e).map_err(|e| format!("{}", e))).and_then(|it| collect_folding(it, (k + 1) % 3, |x: bigtools::Value| (x.start, x.end, x.value.to_bits())));
+                    cmp_answer("move, next() then for_each", ch, s, e, g, &tags, out);
+                    out.count("range_queries_consumed_through_fold", 2);
                     let g = cached
                         .get_interval(&ch.name, s, e)
                         .map_err(|e| format!("{}", e))
@@ -884,7 +912,7 @@ impl Check for C03 {
                     o.ips = ips;
                     o.bs = bs;
                     o.zoom = Zoom::Manual(vec![4]);
-                    C03Case::Ranges(crate::wfam::expand(&crate::wfam::FileCase::WigKaryo { n: 40, opts: o }).into_wig().unwrap())
+                    C03Case::Ranges(crate::wfam::expand(&crate::wfam::FileCase::WigKaryo { n: if ips == 1 { 40 } else { 70 }, opts: o }).into_wig().unwrap())
                 })),
         )
     }
@@ -1209,6 +1237,12 @@ fn c04_ranges(c: &BedCase, bytes: &[u8], out: &mut Outcome) {
                         .map_err(|e| format!("{}", e))
                         .and_then(collect_bed);
                     cmp_bed_answer("plain", ch, s, e, g, &tags, out);
+                    let k = ((s + 2 * e) % 3) as usize;
+                    let g = plain.get_interval(&ch.name, s, e).map_err(|e| format!("{}", e)).and_then(|it| collect_folding(it, k, |x: bigtools::BedEntry| (x.start, x.end, x.rest)));
+                    cmp_bed_answer("plain, next() then for_each", ch, s, e, g, &tags, out);
+                    let g = open().and_then(|r| r.get_interval_move(&ch.name, s, e).map_err(|e| format!("{}", e))).and_then(|it| collect_folding(it, (k + 1) % 3, |x: bigtools::BedEntry| (x.start, x.end, x.rest)));
+                    cmp_bed_answer("move, next() then for_each", ch, s, e, g, &tags, out);
+                    out.count("range_queries_consumed_through_fold", 2);
                     let g = cached
                         .get_interval(&ch.name, s, e)
                         .map_err(|e| format!("{}", e))
@@ -1553,7 +1587,7 @@ impl Check for C04 {
                 o.ips = ips;
                 o.bs = bs;
                 o.zoom = Zoom::Manual(vec![4]);
-                C04Case::Ranges(crate::wfam::expand(&crate::wfam::FileCase::BedKaryo { n: 40, opts: o }).into_bed().unwrap())
+                C04Case::Ranges(crate::wfam::expand(&crate::wfam::FileCase::BedKaryo { n: if ips == 1 { 40 } else { 70 }, opts: o }).into_bed().unwrap())
             }));
         Box::new(singles.chain(multi).chain(hist).chain(tools).chain(extra))
     }
